@@ -2,6 +2,7 @@ package utils
 
 import (
 	"runtime"
+	"sync"
 	"time"
 
 	"github.com/zishang520/engine.io/v2/vhook"
@@ -12,9 +13,18 @@ type Timer struct {
 	sleep  time.Duration
 	fn     func()
 	stopCh chan struct{}
+
+	// mu orders Stop against the re-arming of an interval, stopped tells the
+	// interval loop that Stop ran while a tick was being handled.
+	mu      sync.Mutex
+	stopped bool
 }
 
 func (t *Timer) Refresh() *Timer {
+	t.mu.Lock()
+	defer t.mu.Unlock()
+	t.stopped = false
+
 	defer t.timer.Reset(t.sleep)
 
 	if !t.timer.Stop() {
@@ -62,7 +72,11 @@ func ClearTimeout(timer *Timer) {
 }
 
 func (t *Timer) Stop() {
-	if t.timer.Stop() {
+	t.mu.Lock()
+	t.stopped = true
+	active := t.timer.Stop()
+	t.mu.Unlock()
+	if active {
 		vhook.Yield("timer.Stop.stopped")
 		t.stopCh <- struct{}{}
 	}
@@ -79,7 +93,15 @@ func SetInterval(fn func(), sleep time.Duration) *Timer {
 			select {
 			case <-timer.timer.C:
 				vhook.Yield("timer.interval.tick")
+				timer.mu.Lock()
+				if timer.stopped {
+					// Stop ran after this tick was received: it could not
+					// signal stopCh, so do not re-arm.
+					timer.mu.Unlock()
+					return
+				}
 				timer.timer.Reset(timer.sleep)
+				timer.mu.Unlock()
 				go fn()
 			case <-timer.stopCh:
 				return
